@@ -235,5 +235,18 @@ func ExtremesFamily() []Named {
 	}
 	s.Defs = append(s.Defs, &Def{Kind: "struct", Name: "DeepMix", Fields: []Field{f("s", Simple("Ds8")), f("m", Simple("Dm8")), f("ms", ArrayOf(Simple("Dm8"))), f("tail", Simple("int32"))}})
 	out = append(out, Named{"extremes/deep", s})
+
+	// inline union members used as field types elsewhere, nested in each other by value
+	s = &Schema{}
+	s.Defs = append(s.Defs,
+		&Def{Kind: "struct", Name: "Point", Fields: []Field{f("x", Simple("int32")), f("y", Simple("int32"))}},
+		&Def{Kind: "union", Name: "Nest", Branches: []Branch{
+			{Index: 1, Def: &Def{Kind: "struct", Name: "NestA", Fields: []Field{f("b", Simple("NestB")), f("tag", Simple("byte"))}}},
+			{Index: 2, Def: &Def{Kind: "struct", Name: "NestB", Fields: []Field{f("c", Simple("NestC")), f("n", Simple("uint16"))}}},
+			{Index: 3, Def: &Def{Kind: "struct", Name: "NestC", Fields: []Field{f("p", Simple("Point")), f("id", Simple("guid"))}}},
+			{Index: 4, Def: &Def{Kind: "message", Name: "NestM", Fields: []Field{mf(1, "a", Simple("NestA")), mf(2, "more", ArrayOf(Simple("NestB")))}}}}},
+		&Def{Kind: "message", Name: "Bag", Fields: []Field{mf(1, "as", MapOf("string", ArrayOf(Simple("NestA")))), mf(2, "m", Simple("NestM"))}},
+		&Def{Kind: "struct", Name: "UsesMembers", Fields: []Field{f("a", Simple("NestA")), f("cs", ArrayOf(Simple("NestC"))), f("tail", Simple("int32"))}})
+	out = append(out, Named{"extremes/member-types-used-elsewhere", s})
 	return out
 }
